@@ -278,6 +278,28 @@ pub fn sdes_spaces(tier: Tier, seed: u64) -> Vec<CfgSpace> {
     let mut v = vec![wide_count_space(3)];
     let s = seed;
 
+    // item values of multi-byte characters around and above the 255-BYTE limit whose CHARACTER count stays at or
+    // below 255 (the limit is on bytes: above it the builder must refuse, at or below it the value must come back
+    // whole), as a CNAME, a NOTE, an item of an unassigned type and a PRIV item with a 1-byte / multi-byte prefix
+    v.push(CfgSpace::new("sdes-multibyte-values-around-the-limit", LONG_REASONS * 5 * 2 * 2, move |idx| {
+        let text = long_multibyte_text((idx % LONG_REASONS) as usize);
+        let kind = (idx / LONG_REASONS) % 5;
+        let second = (idx / LONG_REASONS / 5) % 2 == 1;
+        let pad = if idx / LONG_REASONS / 10 == 0 { 0 } else { 8 };
+        let item = match kind {
+            0 => Item::new(1, text.as_bytes()),
+            1 => Item::new(7, text.as_bytes()),
+            2 => Item::new(200, text.as_bytes()),
+            3 => Item::priv_(b"p", text.as_bytes()),
+            _ => Item::priv_("\u{e9}\u{20ac}".as_bytes(), text.as_bytes()),
+        };
+        let mut items = vec![item];
+        if second {
+            items.insert(0, Item::new(2, b"first"));
+        }
+        Pkt::Sdes { chunks: vec![Chunk { ssrc: 0x0506_0708, items }], pad }
+    }));
+
     // (a) one chunk, two items, all pairs of value lengths
     let k1: Vec<u64> = tier.pick(vec![0, 6], vec![0, 3, 4, 6]);
     let k2: Vec<u64> = tier.pick(vec![1, 3, 4, 7], vec![0, 1, 2, 3, 4, 5, 6, 7]);
